@@ -35,6 +35,8 @@ FLOORS["quick"].update({'rational_clock_cases': 150})
 FLOORS["thorough"].update({'rational_clock_cases': 750})
 FLOORS["quick"].update({'two_timer_cases': 300, 'unreferenced_timer_probes': 4})
 FLOORS["thorough"].update({'two_timer_cases': 1500, 'unreferenced_timer_probes': 4})
+FLOORS["quick"].update({'timer_attribute_cases': 60})
+FLOORS["thorough"].update({'timer_attribute_cases': 300})
 
 
 def plan(tier):
